@@ -325,6 +325,23 @@ func runReplays(pc *PropConfig, pkgRel string, paths []string) (map[string]strin
 	if err != nil {
 		return res, err.Error()
 	}
+	if len(pc.Redirect) > 0 {
+		initSrc, err := addHookOverlays(ov, pc.Redirect, pkgPath(pkgRel))
+		if err != nil {
+			return res, "hook overlay: " + err.Error()
+		}
+		tf := filepath.Join(repoDir, pkgRel, "zz_vh_replay_test.go")
+		src := string(ov[tf])
+		// imports must precede other declarations: splice the init source right after the package clause's import block
+		if i := strings.Index(initSrc, "\nfunc init()"); i >= 0 {
+			imports, body := initSrc[:i], initSrc[i:]
+			if j := strings.Index(src, "\nimport"); j >= 0 {
+				src = src[:j] + "\n" + imports + src[j:]
+			}
+			src += body
+		}
+		ov[tf] = []byte(src)
+	}
 	tmp, err := os.MkdirTemp("", "gosym-replay-")
 	if err != nil {
 		return res, err.Error()
